@@ -15,7 +15,7 @@ use vcommon::sweep::Outcome;
 use vglue::oracles::*;
 use vglue::*;
 
-pub const EXTRA_FLAGS: [&str; 3] = ["flip_changes_which_strand_is_observed", "read_shares_kmer_with_own_reverse_complement", "stranded_table_holds_kmer_and_its_rc"];
+pub const EXTRA_FLAGS: [&str; 4] = ["flip_changes_which_strand_is_observed", "read_shares_kmer_with_own_reverse_complement", "stranded_table_holds_kmer_and_its_rc", "stranded_unpruned_graph_with_dangling_extensions"];
 
 pub fn plan(quick: bool) -> Vec<Part> {
     let mut v = vec![];
@@ -37,7 +37,7 @@ pub fn plan(quick: bool) -> Vec<Part> {
 }
 
 pub fn finalize(_tier: &str, rep: &mut Report) {
-    rep.rule = "every read set of the listed families. Unstranded: ALL 2^n choices of which reads to reverse-complement (n <= 3; catalogue sets with more reads: every single flip and all-flipped): k-mer table (keys, counts, extension sets of non-palindromic keys, merged sets of palindromic keys) and the partition/payload/adjacency of the direct, re-compressed and sharded graphs must be identical to the unflipped run and every key must equal min(k-mer, rc). Stranded: table keys/links must be exactly the forward windows/(K+1)-mers, and the tables of a read and of its reverse complement share exactly the windows the two strings share".into();
+    rep.rule = "every read set of the listed families. Unstranded: ALL 2^n choices of which reads to reverse-complement (n <= 3; catalogue sets with more reads: every single flip and all-flipped): k-mer table (keys, counts, extension sets of non-palindromic keys, merged sets of palindromic keys) and the partition/payload/adjacency of the direct, re-compressed and sharded graphs must be identical to the unflipped run and every key must equal min(k-mer, rc). Stranded: table keys/links must be exactly the forward windows/(K+1)-mers (also on the unpruned thresholded graph, whose dangling extensions must not resolve through the other strand), and the tables of a read and of its reverse complement share exactly the windows the two strings share".into();
     rep.assumptions.push("K >= 8 k-mer types are covered by the structure catalogue only (content not exhaustive)".into());
     for f in ["flip_changes_which_strand_is_observed", "palindromic_kmer", "kmer_seen_on_both_strands", "stranded_table_holds_kmer_and_its_rc"] {
         rep.floor(&format!("R1+RT@K4:{}", f), 1);
@@ -150,6 +150,29 @@ pub fn run<K: Kmer + Send + Sync>(c: &GCase) -> Outcome {
             note(&mut o, &format!("{}/lossless", name), check_lossless(gv, &m.pruned, true));
             note(&mut o, &format!("{}/maximal", name), check_maximal(gv, &m.pruned, &|_, _| true));
             note(&mut o, &format!("{}/adjacency", name), check_adjacency(gv, &m.pruned, true));
+        }
+        // thresholded table with dangling extensions: a stranded graph must never resolve an extension through the
+        // reverse complement (no edge with the flip flag, no link lookup answered on the other strand)
+        if !m.kept.is_closed() {
+            let (table, _) = count_table::<K>(&reads, true, c.thr, false);
+            let gu = compress_kmers_with_hash(true, &sum_spec(), &table).finish_serial();
+            let gvu = view(&gu);
+            note(&mut o, "unpruned/adjacency", check_adjacency(&gvu, &m.kept, false));
+            for (i, n) in gvu.nodes.iter().enumerate() {
+                if n.ledges.iter().chain(n.redges.iter()).any(|e| e.2) {
+                    o.fail("stranded-graph-reports-rc-link", format!("unpruned stranded graph: node {} = {} has an edge flagged as strand-flipping: L{:?} R{:?}", i, ascii(&n.seq), n.ledges, n.redges));
+                }
+            }
+            if k <= 6 {
+                for w in all_strings(k) {
+                    for d in [Dir::Left, Dir::Right] {
+                        if let Some((_, _, true)) = gu.find_link(mk::<K>(&w), d) {
+                            o.fail("stranded-graph-reports-rc-link", format!("unpruned stranded graph: find_link({}, {:?}) answers through the reverse complement", ascii(&w), d));
+                        }
+                    }
+                }
+            }
+            o.flags |= flag::SPECIFIC4;
         }
         // a read and its reverse complement: tables share exactly the shared windows
         for r in &rs {
